@@ -505,6 +505,13 @@ class Body:
                 if self.kind == 'Closure' and pl['l'] == 1 and place_fields(pl):
                     roots.add(('upvar', [e['f'] for e in pl['p'] if isinstance(e, dict) and 'f' in e][0]))
                     return
+                # a component of a tuple built once (`let (a, b) = (x, y);`) is that operand
+                if pl['p'] and isinstance(pl['p'][0], dict) and 'f' in pl['p'][0] and not (1 <= pl['l'] <= self.arg_count):
+                    ds = self.defs_of(pl['l'])
+                    if len(ds) == 1 and ds[0][0] == 'stmt' and ds[0][3]['rv'].get('k') == 'aggregate' and ds[0][3]['rv'].get('tuple') \
+                            and pl['p'][0]['f'] < len(ds[0][3]['rv']['ops']) and (pl['l'], 'f') not in seen:
+                        walk_op(ds[0][3]['rv']['ops'][pl['p'][0]['f']], depth + 1)
+                        return
                 walk_local(pl['l'], depth)
             elif op['k'] == 'const':
                 roots.add(('const', op['text']))
